@@ -396,6 +396,70 @@ example :
     (tlsServiceConnect t (fun _ => 0) (fun _ => .ok)).1.c.ca = some 1 := by decide
 
 
+/-- **TLS client reconnects within `a + b - 1` service calls of a timer-driven reopen**: the server
+answers the `a`-th `connect_ex` on a socket and completes the TLS handshake at its `b`-th `do_handshake`
+(arbitrary finite latencies; the first handshake call is made in the call that connects), the schedule is
+paced like in `C27_reconnects_within_partial`.  Then the `ClientTls` is connected, accepted and not cut off
+on that very socket and reports its address. -/
+theorem C27_tls_reconnects_within_partial (a b : Nat) (ansOf : Nat → Nat) (hsOf : Nat → Shake) (t : Tls) (id : Nat)
+    (dts : List Int) (hL : Listening a ansOf) (hS : Shaking b hsOf) (hJ : TlsJustReopened t id)
+    (hlen : dts.length = a + b - 1) (hP : Paced t.c.timer.duration dts) :
+    (trunListening ansOf hsOf .bare t dts).connected = true ∧ (trunListening ansOf hsOf .bare t dts).c.cutoff = false ∧
+    (trunListening ansOf hsOf .bare t dts).c.accepted = true ∧
+    (trunListening ansOf hsOf .bare t dts).c.sock = some id ∧ (trunListening ansOf hsOf .bare t dts).c.ca = some id := by
+  obtain ⟨⟨h1, h2, h3, h4, h5⟩, hc, hsh⟩ := hJ
+  have ha0 := hL.1
+  have hb0 := hS.1
+  apply tls_reconnect_core a b ansOf hsOf hL hS id dts t h1 hc h4
+  · intro _; exact ⟨hsh, by rw [h2]; exact ha0⟩
+  · intro h; rw [h3] at h; cases h
+  · simp only [tlsNeed, h3, Bool.false_eq_true, if_false, h2]; omega
+  · omega
+  · intro _ _
+    have : t.c.timer.stop - t.c.now = t.c.timer.duration := by omega
+    rw [this]; exact hP
+
+/-- connect latency 3, handshake latency 2, a call every 0.04 s, timeout 0.2 s: connected after 4 calls -/
+example :
+    let t := (tlsReopenRestart (Tls.init 205 true) none).1
+    (trunListening (fun n => if n + 1 ≥ 3 then 0 else 115) (fun n => if n + 1 ≥ 2 then .ok else .want) .bare t
+      [41, 41, 41, 41]).connected = true ∧
+    (trunListening (fun n => if n + 1 ≥ 3 then 0 else 115) (fun n => if n + 1 ≥ 2 then .ok else .want) .bare t
+      [41, 41, 41]).connected = false := by decide
+
+/-- **A cut off TLS client reconnects, arbitrary server latency**: reconnectable `ClientTls`, cut off (after
+a completed handshake or in any other state); at the first call at which the reconnect timer has expired
+(round `d0`) `serviceConnect` reopens and makes the first attempt; with connect latency `a`, handshake
+latency `b` and a paced schedule the client is connected after `a + b - 1` calls in all. -/
+theorem C27_tls_reconnects_after_cutoff_within (a b : Nat) (ansOf : Nat → Nat) (hsOf : Nat → Shake) (t : Tls)
+    (d0 : Int) (dts : List Int) (hL : Listening a ansOf) (hS : Shaking b hsOf)
+    (hx : t.c.cutoff = true) (hr : t.c.reconnectable = true) (ht : 0 < t.c.timeout)
+    (he : t.c.timer.stop ≤ t.c.now + d0) (hlen : dts.length + 1 = a + b - 1)
+    (hP : Paced t.c.timer.duration (0 :: dts)) :
+    (trunListening ansOf hsOf .bare t (d0 :: dts)).connected = true ∧
+    (trunListening ansOf hsOf .bare t (d0 :: dts)).c.cutoff = false ∧
+    (trunListening ansOf hsOf .bare t (d0 :: dts)).c.sock = some t.c.fresh ∧
+    (trunListening ansOf hsOf .bare t (d0 :: dts)).c.ca = some t.c.fresh := by
+  let t0 : Tls := { t with c := { t.c with now := t.c.now + d0 } }
+  have hfire : timerFired t0.c = true := (timerFired_iff t0.c).mpr ⟨ht, he⟩
+  obtain ⟨hj, _, _, _, hd⟩ := tlsReopenRestart_just t0 none
+  have hrun : trunListening ansOf hsOf .bare t (d0 :: dts) =
+      trunListening ansOf hsOf .bare (tlsReopenRestart t0 none).1 (0 :: dts) := by
+    conv => lhs; unfold trunListening
+    conv => rhs; unfold trunListening
+    simp only [Kind.tlsService]
+    rw [show ({ t with c := { t.c with now := t.c.now + d0 } } : Tls) = t0 from rfl,
+      tls_cutoff_split t0 ansOf hsOf hx hr hfire]
+    have e0 : ({ (tlsReopenRestart t0 none).1 with
+        c := { (tlsReopenRestart t0 none).1.c with now := (tlsReopenRestart t0 none).1.c.now + 0 } } : Tls)
+        = (tlsReopenRestart t0 none).1 := by simp
+    rw [e0]
+  rw [hrun]
+  have := C27_tls_reconnects_within_partial a b ansOf hsOf (tlsReopenRestart t0 none).1 t0.c.fresh (0 :: dts) hL hS hj
+    (by simp; omega) (by rw [hd]; exact hP)
+  exact ⟨this.1, this.2.1, this.2.2.2.1, this.2.2.2.2⟩
+
+
 /-! ## the full statement and why it fails on this code -/
 
 /-- what the property asks for, without assumptions about the schedule: from the state a timer-driven
